@@ -36,6 +36,7 @@ Inductive stmt :=
 | SRaise (exc : string)
 | STry (body handler : list stmt)
 | SPass
+| SAssert (c : expr)
 | SUnsupported (s : string).
 
 Record fundef := FunDef {
